@@ -1478,6 +1478,9 @@ import xspecs
 
 SPECS = {
     "O19.2": [xspecs.fifo_choose],
+    "O4.1": [xspecs.version_roundtrip],
+    "O15.3": [xspecs.drop_range_choose],
+    "O1.4": [xspecs.point_read_tables],
     "O17.3": [xspecs.filter_adapter],
     "O15.4": [xspecs.clear_resets],
     "O20.5": [blob_pick_outside_refs],
@@ -1590,6 +1593,7 @@ def value_type_table(fns):
         (r"src/tree/mod\.rs[^>]*>::insert\(", r"InternalValue::from_components::<", 3, "Value", 2, r"^copy _4$"),
         (r"src/tree/mod\.rs[^>]*>::remove\(", r"InternalValue::new_tombstone::<", None, None, 1, r"^copy _3$"),
         (r"src/tree/mod\.rs[^>]*>::remove_weak\(", r"InternalValue::new_weak_tombstone::<", None, None, 1, r"^copy _3$"),
+        (r"src/compaction/flavour\.rs[^>]*>::write\(_1: &mut RelocatingCompaction", r"InternalValue::from_components::<", 3, "Indirection", 2, r"^copy \(\(_2\.0: key::InternalKey\)\.1: u64\)$"),
         (r"src/value\.rs[^>]*>::new_tombstone\(", r"InternalKey::new::<", 2, "Tombstone", 1, r"^copy _2$"),
         (r"src/value\.rs[^>]*>::new_weak_tombstone\(", r"InternalKey::new::<", 2, "WeakTombstone", 1, r"^copy _2$"),
     ]
@@ -1597,7 +1601,7 @@ def value_type_table(fns):
     for sel, ctor, ti, want, si, sre in table:
         fn = mir.find(fns, sel)
         short = re.sub(r"\\", "", sel).split(">::")[-1].rstrip("(")
-        where = "ingestion" if "ingest" in sel else ("tree" if "tree/mod" in sel else "InternalValue")
+        where = "ingestion" if "ingest" in sel else ("tree" if "tree/mod" in sel else ("RelocatingCompaction" if "flavour" in sel else "InternalValue"))
         a = Automaton(fn, "O13.3 %s::%s creates %s at the caller's seqno" % (where, short, want or ctor.split("::")[1]))
         cs = calls(fn, ctor)
         if len(cs) != 1:
@@ -1841,3 +1845,135 @@ def filter_registration(fns):
 
 
 SPECS["O12.6"] = [filter_registration]
+
+
+# ---------------------------------------------------------------------------------------------
+# C16 / C20 O16.5: files are flagged for deletion only at the publish-then-delete sites
+# ---------------------------------------------------------------------------------------------
+
+MARK_SITES = [r"flavour\.rs[^>]*>::finish$", r"(^|::)drop_tables$"]
+
+
+def mark_deleted_census(fns):
+    """`Table::mark_as_deleted` / `BlobFile::mark_as_deleted` (and direct stores to `is_deleted`) make Drop unlink the file.
+    O5.3 / O16.4 decide, per site, that the flag is set only after the version without the file is published. That
+    is only meaningful if no *other* function sets the flag - in particular none that runs before publication
+    (a version builder, a strategy, a reader). This obligation enumerates every user of the flag."""
+    users, stores = [], []
+    for f in fns:
+        if getattr(f, "skip", False) or "tests::" in f.name or "::tests" in f.name:
+            continue
+        if re.search(r"::mark_as_deleted$", f.name):
+            continue
+        hit = False
+        for b in f.blocks.values():
+            if b.cleanup:
+                continue
+            if b.kind == "call" and (re.search(r"(Table|BlobFile)::mark_as_deleted$", b.callee) or re.search(r"(Table|BlobFile)::mark_as_deleted\b", b.args or "")):
+                hit = True
+            if any(re.search(r"(Table|BlobFile)::mark_as_deleted\b", st) for st in b.stmts):
+                hit = True
+            if b.kind == "call" and re.search(r"AtomicBool::store$", b.callee):
+                # which field? resolve the receiver's definition
+                l = RE_LOCAL.search(b.args or "")
+                if l:
+                    for bb in f.blocks.values():
+                        for st in bb.stmts:
+                            if st.startswith(l.group(0) + " = &") and "is_deleted" in _field_name_hint(f, st):
+                                stores.append(f)
+        if hit:
+            users.append(f)
+    if not users:
+        raise MirError("mark_as_deleted has no users at all (pattern drift)")
+    out = []
+    for f in users + stores:
+        allowed = any(re.search(rx, f.name) for rx in MARK_SITES)
+        a = Automaton(f, "O16.5 %s may flag files for deletion: it is one of the publish-then-delete sites" % f.name[-60:])
+        a.glue = [("function is in the list of publish-then-delete sites (each decided by O5.3 / O16.4)", "proved" if allowed else "refuted", 0.0)]
+        a.var("x")
+        bl = [b.idx for b in live_blocks(f) if (b.kind == "call" and (re.search(r"mark_as_deleted", b.callee) or re.search(r"mark_as_deleted", b.args or ""))) or any("mark_as_deleted" in st for st in b.stmts)]
+        a.event("call:mark_as_deleted outside the publish-then-delete sites", [] if allowed else (bl or [0]))
+        a.require("call:mark_as_deleted outside the publish-then-delete sites", "false",
+                  "%s flags a table / blob file for deletion; only StandardCompaction::finish, RelocatingCompaction::finish and drop_tables may do that, after the version without the file was published - a flagged file is unlinked when its last reference drops even if the operation then fails" % f.name.split("::")[-1])
+        out.append(a)
+    return out
+
+
+def _field_name_hint(fn, st):
+    return st
+
+
+SPECS["O16.5"] = [mark_deleted_census]
+
+
+# ---------------------------------------------------------------------------------------------
+# C12 / C11 O12.7: a block keeps its hash index only if every restart position is below the FREE marker
+# ---------------------------------------------------------------------------------------------
+
+def _const_value(src_rel, name):
+    txt = open(os.path.join(SRC_ROOT, "src", src_rel)).read()
+    m = re.search(r"const %s\s*:\s*\w+\s*=\s*([^;]+);" % re.escape(name), txt)
+    if not m:
+        raise MirError("constant %s not found in %s" % (name, src_rel))
+    e = m.group(1).strip().replace("u8::MAX", "255").replace("_", "")
+    if not re.fullmatch(r"[0-9+\- ]+", e):
+        raise MirError("constant %s = %r is not a literal expression" % (name, e))
+    return eval(e)
+
+
+def hash_index_guard(fns):
+    fn = mir.find(fns, r"src/table/block/trailer\.rs[^>]*>::write\(")
+    a = Automaton(fn, "O12.7 Trailer::write keeps the hash index only when every restart position is < MARKER_FREE")
+    hw = one(calls(fn, r"hash_index::builder::Builder::write::<"), "hash index Builder::write call")
+    bw = one(calls(fn, r"binary_index::builder::Builder::write::<"), "binary index Builder::write call")
+    marker_free = _const_value("table/block/hash_index/mod.rs", "MARKER_FREE")
+    # the binary index length: field .1 of the Continue payload of binary index write
+    len_local = None
+    for b in live_blocks(fn):
+        for st in b.stmts:
+            m = re.match(r"^(_\d+) = copy \((_\d+)\.1: usize\)$", st)
+            if m:
+                len_local = m.group(1)
+    if not len_local:
+        raise MirError("Trailer::write: binary index length local not found")
+    guard_edges, guard_terms = [], []
+    for b in live_blocks(fn):
+        if b.kind != "switch":
+            continue
+        for st in b.stmts:
+            m = re.match(r"^(_\d+) = (Le|Lt)\(copy %s, const (.*)\)$" % re.escape(len_local), st)
+            if m and m.group(1) in b.args:
+                c = m.group(3).strip()
+                mm = re.match(r"^(\d+)_usize$", c)
+                val = int(mm.group(1)) if mm else _const_value("table/block/hash_index/builder.rs", c.split("::")[-1])
+                guard_terms.append("(%s len (_ bv%d 64))" % ("bvule" if m.group(2) == "Le" else "bvult", val))
+                t, f = bool_edges(fn, b, m.group(1))
+                guard_edges.append(edge_block(fn, b.idx, t))
+    # `u8::try_from(len).is_ok()` style guard
+    for b in live_blocks(fn):
+        if b.kind == "call" and re.search(r"<u8 as TryFrom<usize>>::try_from$", b.callee) and len_local in RE_LOCAL.findall(b.args or ""):
+            isok = [c for c in live_blocks(fn) if c.kind == "call" and re.search(r"Result::<u8, [^>]*>::is_ok$", c.callee)]
+            for c in isok:
+                guard_terms.append("(bvule len (_ bv255 64))")
+                guard_edges.append(true_edge(fn, c))
+    if not guard_edges:
+        raise MirError("Trailer::write: no recognisable guard on the binary index length before the hash index is written")
+    import glue as _g
+    smt = "(set-logic QF_BV)\n(declare-const len (_ BitVec 64))\n" + "".join("(assert %s)\n" % t for t in guard_terms) + \
+          "(assert (bvugt len (_ bv%d 64)))\n(check-sat)\n(get-value (len))\n" % marker_free
+    import bmc as _b
+    v1, t1, m1 = _b.run_solver(smt.replace("(get-value (len))\n", ""), "z3", 60)
+    v2, t2, _ = _b.run_solver(smt.replace("(get-value (len))\n", ""), "cvc5", 60)
+    ok = v1 == "unsat" and v2 == "unsat"
+    if v1 not in ("sat", "unsat") or v1 != v2:
+        raise MirError("hash index guard: solvers answered %s / %s" % (v1, v2))
+    a.glue = [("guard %s implies binary_index_len <= MARKER_FREE (%d): restart positions 0..len-1 stay below the FREE marker" % (" and ".join(guard_terms), marker_free),
+               "proved" if ok else "refuted", t1 + t2)]
+    a.var("guarded")
+    a.event("edge:guard on the binary index length holds", guard_edges if ok else []).on("edge:guard on the binary index length holds", "guarded", True)
+    a.event("call:hash index written", [hw.idx])
+    a.require("call:hash index written", "{guarded}", "a block with %d or more restart intervals keeps its hash index: position %d collides with the FREE marker, point reads of keys in that interval answer 'absent'" % (marker_free + 1, marker_free))
+    return [a]
+
+
+SPECS["O12.7"] = [hash_index_guard]
